@@ -34,7 +34,7 @@ RULE = (
 )
 BUDGET = {
     "quick": {"cases": 416, "shrink": False, "time_cap_s": 600},
-    "thorough": {"cases": 8000, "shrink": False, "time_cap_s": 3000},
+    "thorough": {"cases": 6000, "shrink": False, "time_cap_s": 3000},
 }
 EPS = 2.0 ** -52
 GRID_SIZES = [40, 50, 60, 80, 120]
